@@ -85,6 +85,14 @@ def say(*parts):
         sys.stdout.write(text.encode('ascii', 'backslashreplace').decode('ascii'))
 
 
+def _small(case, limit=6000):
+    """Samples in the evidence file are for reading: volume cases (megabytes of JSON) are counted, not shown."""
+    try:
+        return len(json.dumps(case, default=jdefault)) <= limit
+    except Exception:  # noqa: BLE001
+        return False
+
+
 def fingerprint(case):
     return hashlib.blake2b(canon(case).encode(), digest_size=8).digest()
 
@@ -166,11 +174,11 @@ class Recorder:
                 self.nt_enum += 1
             else:
                 self.nt.add(fingerprint(case))
-            if len(self.nt_samples) < 4:
+            if len(self.nt_samples) < 4 and _small(case):
                 self.nt_samples.append(case)
         for c in classes:
             self.classes[c] += 1
-        if sample and len(self.samples) < 3:
+        if sample and len(self.samples) < 3 and _small(case):
             self.samples.append(case)
         unknown = []
         for f in failures:
